@@ -48,8 +48,8 @@ NAME_GRAMMARS = [
     ("silent-chain", 'a = _{ b ~ "1" }\nb = _{ c | "a" }\nc = _{ "b" ~ "b" }\nr = { a+ }\n', ("r",)),
     # case insensitive literals against letters whose Unicode case folding reaches ASCII (pest ignores ASCII case only),
     # an empty insensitive literal in a choice
-    ("folding-changes-length", "".join(f'a{i} = {{ ^"a{c}" | "a{c}b" }}\nb{i} = {{ "a{c}b" | ^"a{c}" | "a" }}\nc{i} = {{ (^"{c}a" | "{c}ab" | "b")+ }}\nd{i} = {{ ^"{c}" | "{c}b" }}\n' for i, c in enumerate("\u00df\u0130\ufb01\u212a\u0149")),
-     tuple(f"{r}{i}" for i in range(5) for r in "abcd"), "abA\u00df\u0130\ufb01\u212a\u0149", 3),
+    ("folding-changes-length", "".join(f'a{i} = {{ ^"a{c}" | "a{c}b" }}\nb{i} = {{ "a{c}b" | ^"a{c}" | "a" }}\nc{i} = {{ (^"{c}a" | "{c}ab" | "b")+ }}\nd{i} = {{ ^"{c}" | "{c}b" }}\ne{i} = {{ (\'0\'..\'9\' | ^"{c}a" | "b")+ }}\nf{i} = {{ ASCII_DIGIT | "a" | ^"a{c}" }}\n' for i, c in enumerate("\u00df\u0130\ufb01\u212a\u0149")),
+     tuple(f"{r}{i}" for i in range(5) for r in "abcdef"), "ab1A\u00df\u0130\ufb01\u212a\u0149", 3),
     ("case-folding", 'r = { (^"ss" | ^"x")+ }\nq = { (^"s" | ^"k" | "!")+ }\nt = { (^"" | "sk") ~ "s"? }\nu = { ^"k" ~ ^"ss"? }\n', ("r", "q", "t", "u"), "sSkK\u00df\u017f\u212a!x", 3),
 ]
 
